@@ -43,10 +43,15 @@ def valid_pool():
     pool.append(big + b"\n# tail 1\n")          # long texts that differ only after several kilobytes
     pool.append(big + b"\n# tail 2\n")
     pool.append(big.replace(b"AtLeastOneMarker = '+';", b"AtLeastOneMarker = '*';"))  # same length, one byte in the middle
-    crcs = {crc32_hex(t) for t in pool}
-    if len(crcs) != len(pool):
+    seen = set()
+    out = []
+    for t in pool:  # identical texts (corpus pairs that differ only in their hook files) are kept once
+        if t not in seen:
+            seen.add(t)
+            out.append(t)
+    if len({crc32_hex(t) for t in out}) != len(out):
         raise HarnessError("valid grammar pool has CRC collisions")
-    return pool
+    return out
 
 
 class Slot:
@@ -63,7 +68,10 @@ def gen_history(seed, i, valid, tier):
     cfg = {"id": i, "mode": mode, "format": fmt, "entropy": rng.below(1 << 62),
            "explicit_dest": mode == "file" and rng.coin(500),
            # modification times are simulated state: the destination's sentinel may be older or newer than the grammars
-           "dest_mtime": rng.choice([SENTINEL_MTIME, FUTURE_MTIME])}
+           "dest_mtime": rng.choice([SENTINEL_MTIME, FUTURE_MTIME]),
+           # settings are fixed per history; a grammar that does not compile under them counts as invalid
+           "derives": rng.weighted([(None, 60), (["Debug", "Clone", "PartialEq", "Eq"], 20), ([], 20)]),
+           "ctx": "crate::Ctx" if rng.coin(150) else None}
     if mode == "file":
         slots = ["g0.ebnf"]
     else:
@@ -108,8 +116,8 @@ class Scratch:
         self.lock = threading.Lock()
         self.n = 0
 
-    def get(self, text, prefix, fmt, entropy):
-        key = (text, prefix, fmt, entropy)
+    def get(self, text, prefix, fmt, entropy, settings=()):
+        key = (text, prefix, fmt, entropy, tuple(settings))
         with self.lock:
             if key in self.cache:
                 return self.cache[key]
@@ -119,7 +127,7 @@ class Scratch:
         try:
             with open(os.path.join(d, "g.ebnf"), "wb") as f:
                 f.write(text)
-            argv = [sim_bin("driver"), "compile", "--file", os.path.join(d, "g.ebnf"), "--dest", os.path.join(d, "out.rs"), "--prefix", prefix]
+            argv = [sim_bin("driver"), "compile", "--file", os.path.join(d, "g.ebnf"), "--dest", os.path.join(d, "out.rs"), "--prefix", prefix] + list(settings)
             if fmt:
                 argv.append("--format")
             c = run_child(argv, d, base_env(), entropy=entropy)
@@ -159,9 +167,20 @@ def remove_any(path):
         shutil.rmtree(path)
 
 
+def settings_of(cfg):
+    a = []
+    d = cfg.get("derives")
+    if d is not None:
+        a += ["--no-derives"] if not d else ["--derives", ",".join(d)]
+    if cfg.get("ctx"):
+        a += ["--ctx", cfg["ctx"]]
+    return a
+
+
 def execute_history(cfg, d, valid, scratch, stats=None):
     """Runs the history in directory d. Returns list of violations: dicts with class, op index, detail."""
     fmt = cfg["format"]
+    settings = settings_of(cfg)
     prefixes = PREFIXES_FORMAT if fmt else PREFIXES
     slots = [Slot(r) for r in cfg["slots"]]
     prefix = ""
@@ -236,13 +255,18 @@ def execute_history(cfg, d, valid, scratch, stats=None):
                     os.utime(dp, (cfg.get("dest_mtime", SENTINEL_MTIME), cfg.get("dest_mtime", SENTINEL_MTIME)))
                 before[s] = snapshot(dp)
             expected = {}
+            rejected_by_settings = set()
             for s in in_scope:
                 if slots[s].kind == "valid":
-                    expected[s] = scratch.get(slots[s].text, prefix, fmt, cfg["entropy"])
+                    expected[s] = scratch.get(slots[s].text, prefix, fmt, cfg["entropy"], settings)
                     if expected[s] is None:
-                        raise HarnessError("reference compile of a pool grammar failed")
+                        if not settings:
+                            raise HarnessError("reference compile of a pool grammar failed")
+                        # e.g. @memoize with an empty derive set: invalid under this history's settings
+                        rejected_by_settings.add(s)
+                        continue
                     fresh[s] = before[s] is not None and before[s][0] == expected[s]
-            failing = [s for s in in_scope if slots[s].kind != "valid"]
+            failing = [s for s in in_scope if slots[s].kind != "valid" or s in rejected_by_settings]
             if cfg["mode"] == "file":
                 if slots[0].kind == "absent":
                     continue
@@ -251,7 +275,7 @@ def execute_history(cfg, d, valid, scratch, stats=None):
                     argv += ["--dest", dest_of(cfg, d, 0)]
             else:
                 argv = [sim_bin("driver"), "compile", "--dir", os.path.join(d, "src")]
-            argv += ["--prefix", prefix]
+            argv += ["--prefix", prefix] + settings
             if fmt:
                 argv.append("--format")
             eio = [os.path.basename(slots[s].rel) for s in in_scope if slots[s].kind == "eio"]
@@ -281,9 +305,9 @@ def execute_history(cfg, d, valid, scratch, stats=None):
                 runs_ok += 1
                 trace.append("run:ok" + ("*" if changed_since_ok else ""))
                 if failing:
-                    v("failing-run-returned-ok", failing[0], "grammar state %s but Compile::run returned Ok" % slots[failing[0]].kind)
+                    v("failing-run-returned-ok", failing[0], "grammar state %s but Compile::run returned Ok" % ("rejected under the history's settings" if failing[0] in rejected_by_settings else slots[failing[0]].kind))
                 for s in in_scope:
-                    if slots[s].kind != "valid":
+                    if slots[s].kind != "valid" or s in rejected_by_settings:
                         continue
                     a = after[s]
                     if a is None or a[0] == "notfile":
@@ -314,9 +338,9 @@ def execute_history(cfg, d, valid, scratch, stats=None):
                     v("valid-run-failed", None, "all grammars valid and readable but Compile::run returned Err: %s" % rest[:200].decode(errors="replace"))
                 for s in failing:
                     if after[s] != before[s]:
-                        v("failing-run-modified-destination", s, "run failed on this grammar (%s) but its destination changed" % slots[s].kind)
+                        v("failing-run-modified-destination", s, "run failed on this grammar (%s) but its destination changed" % ("rejected under the history's settings" if s in rejected_by_settings else slots[s].kind))
                 for s in in_scope:
-                    if slots[s].kind == "valid" and after[s] != before[s]:
+                    if slots[s].kind == "valid" and s not in rejected_by_settings and after[s] != before[s]:
                         # directory mode stops at the first error in read_dir order: other grammars are unchanged or fresh
                         if after[s] is None or after[s][0] != expected[s]:
                             v("failing-run-corrupted-other-destination", s, "a valid grammar's destination is neither unchanged nor the fresh compilation")
@@ -348,6 +372,15 @@ def run(tier, seed, replay_path=None):
         with ThreadPoolExecutor(NCPU) as ex:
             for i, r in enumerate(ex.map(one, range(n))):
                 results[i] = r
+        # determinism self-test: the first histories once more; traces and violations must be identical
+        nself = min(n, 12 if tier == "quick" else 60)
+        diffs = 0
+        for i in range(nself):
+            cfg2, (viol2, info2) = one(i)
+            if (viol2, info2["trace"]) != (results[i][1][0], results[i][1][1]["trace"]):
+                diffs += 1
+        if diffs:
+            raise HarnessError("determinism self-test: %d of %d histories differed between two executions" % (diffs, nself))
         known = [f for f in load_known_findings().get("findings", []) if f.get("property") == "C18"]
         known_hit = {}
         classes = {}
@@ -420,6 +453,7 @@ def run(tier, seed, replay_path=None):
                              "grammar_mtime_skewed_edits": sum(c for k, c in op_counts.items() if "@" in k)},
             "runs_per_hour": int(n / max(wall, 1e-6) * 3600),
             "known_findings_hit": sorted(known_hit),
+            "determinism_selftest": {"histories_run_twice": nself, "differences": 0},
             "real_components": ["peginator_codegen::Compile from the working tree (driver compile)", "rustfmt (format histories)", "kernel file system"],
             "stubbed_components": ["EIO on open of a grammar is injected by the shim", "entropy of every child is seeded", "file timestamps are simulated state: destinations get a seeded sentinel mtime (2001 or 2040) before every run, edited grammars a seeded mtime (now, 1990, 2041, same as destination)"],
         }
